@@ -98,6 +98,13 @@ class Rewrite(ast.NodeTransformer):
         node.body.insert(0, ast.copy_location(probe, node))
         return node
 
+    def visit_For(self, node):
+        self.generic_visit(node)
+        probe = ast.Expr(ast.Call(ast.Name('sx__loop', ast.Load()),
+                                  [ast.Constant('%s:%d' % (self.mod, node.lineno))], []))
+        node.body.insert(0, ast.copy_location(probe, node))
+        return node
+
     def _set_on(self):
         return OPTIONS['sets'] and self.mod.startswith(OPTIONS['set_modules'])
 
@@ -330,6 +337,7 @@ def shadow_dex(dex):
     dex.range = E.sx_range
     dex.int = E.sx_int
     dex.bytearray = E.sx_bytearray
+    dex.bytes = E.sx_bytes
     dex.logger = E.NullLogger()
     return dex
 
